@@ -16,8 +16,10 @@ pub mod zvt_builder {
     pub trait ZvtSerializer: Sized {
         spec fn tid() -> int;
         spec fn zd_ok(b: Seq<u8>, v: Self) -> bool;
+        /// inputs the packet decoder accepts
+        spec fn zd_defined(b: Seq<u8>) -> bool;
         fn zvt_deserialize(bytes: &[u8]) -> (r: ZVTResult<(Self, &[u8])>)
-            ensures r matches Ok((v, rest)) ==> Self::zd_ok(bytes@, v);
+            ensures r matches Ok((v, rest)) ==> Self::zd_ok(bytes@, v), Self::zd_defined(bytes@) ==> r is Ok;
     }
     pub open spec fn tid_of<T: ZvtSerializer>(v: T) -> int { T::tid() }
     pub open spec fn zd_ok_of<T: ZvtSerializer>(b: Seq<u8>, v: T) -> bool { T::zd_ok(b, v) }
@@ -48,12 +50,16 @@ pub mod zvt_builder {
     pub trait ZvtParser: Sized {
         spec fn parse_ok(b: Seq<u8>, v: Self) -> bool;
         spec fn ctrl_known(c: u8, i: u8) -> bool;
+        spec fn parse_defined(b: Seq<u8>) -> bool;
         //@ fn src:zvt_builder/src/lib.rs | trait ZvtParser | zvt_parse | sig props=C15,C02
             ensures
         //@ tag parse.only_own_ctrl C15
                 r matches Ok(v) ==> Self::parse_ok(bytes@, v),
         //@ tag parse.foreign_ctrl_is_error C15 C06
                 (bytes@.len() < 2 || !Self::ctrl_known(bytes@[0], bytes@[1])) ==> r is Err,
+        //@ tag parse.own_ctrl_is_dispatched C15 C05
+                // ... and a packet of the reply set is handed to its own packet type (the sequences rely on it: C05)
+                Self::parse_defined(bytes@) ==> r is Ok,
         //@ end
     }
 }
